@@ -72,8 +72,14 @@ seria_evmux(int whither, echs_const_evstrm_t strm)
 {
 	const struct evmux_s *this = (const struct evmux_s*)strm;
 
+	if (UNLIKELY(this->s == NULL)) {
+		/* all streams have come to an end and are gone */
+		return;
+	}
 	for (size_t i = 0UL; i < this->ns; i++) {
-		echs_evstrm_seria(whither, this->s[i]);
+		if (LIKELY(this->s[i] != NULL)) {
+			echs_evstrm_seria(whither, this->s[i]);
+		}
 	}
 	return;
 }
